@@ -191,16 +191,16 @@ var checkSpecs = map[string]*checkSpec{
 	},
 	"C14": {
 		assumptions: []string{
-			"what is decided is the lock discipline G1-G4 of DESIGN.md §4 C14 on every feasible path of every entry point (a sufficient condition for race freedom of the locations it covers, by the lock-set argument); interleavings are not enumerated",
+			"what is decided is the lock discipline G1-G4 of DESIGN.md §4 C14 plus G5 (the FEC encoder is touched only inside postProcess: goroutine confinement) on every feasible path of every entry point (a sufficient condition for race freedom of the locations it covers, by the lock-set argument); interleavings are not enumerated",
 			"locations outside the table (packet bytes handed over through channels, fecEncoder state owned by postProcess, the deprecated SetDUP/SetStreamMode, the global SetEntropy) are outside the claim",
 			"violations are confirmed by concrete re-execution inside gse (the monitor is ghost state), not by the race detector",
 		},
 		stubs: []string{"see C06; sync.Mutex/RWMutex are executor objects with an owner, visible to the monitor; sync/atomic and atomic.Value bypass the monitor by construction"},
 		bounds: map[string]string{
-			"quick":    "28 UDPSession entry points (every exported non-deprecated method plus update, one postProcess iteration, packetInput) on the dialled and the accepted session and 11 Listener entry points, each with symbolic arguments from an established connection, cipher {nil, blockCrypt over the UF cipher} x FEC {off,(2,1)}; TimedSched.Put; every load/store of a guarded cell or map on every feasible path is checked against the lock state",
+			"quick":    "29 UDPSession entry points (every exported non-deprecated method plus update, one postProcess iteration, packetInput) on the dialled and the accepted session and 11 Listener entry points, each with symbolic arguments from an established connection, cipher {nil, blockCrypt over the UF cipher} x FEC {off,(2,1)}; TimedSched.Put; every load/store of a guarded cell or map on every feasible path is checked against the lock state",
 			"thorough": "same",
 		},
-		outside: "schedules; locations not in G1-G4; code that is race-free by a different correct mechanism would need the table extended (false-alarm risk recorded in DESIGN.md)",
+		outside: "schedules; locations not in G1-G5; code that is race-free by a different correct mechanism would need the table extended (false-alarm risk recorded in DESIGN.md)",
 	},
 	"C16": {
 		assumptions: []string{
